@@ -24,6 +24,8 @@ pub struct Oracle {
     /// acknowledged: the change may or may not have been applied, in memory or durably): the values
     /// it may have. Cleared by the next acknowledged (200) key-management answer for that database.
     maybe: BTreeMap<String, BTreeSet<Option<String>>>,
+    /// keys requested by `db.set_api_key` / `db.create` requests that were answered 5xx, per database
+    failed_sets: BTreeMap<String, BTreeSet<String>>,
 }
 
 /// methods whose default parameters address collection `c1` (their handler opens it)
@@ -71,6 +73,7 @@ impl Oracle {
             keys: BTreeSet::new(),
             reopened_since_crash: None,
             maybe: BTreeMap::new(),
+            failed_sets: BTreeMap::new(),
         }
     }
 
@@ -88,6 +91,7 @@ impl Oracle {
         self.cfg = cfg;
         self.bound.clear();
         self.maybe.clear();
+        self.failed_sets.clear();
         self.reopened_since_crash = None;
     }
 
@@ -180,8 +184,11 @@ impl Oracle {
             let mut headers = vec![("content-length".to_string(), body.len().to_string()), ("content-type".to_string(), ct.to_string())];
             headers.sort();
             if resp.status != 401 {
+                // the key of a request that was answered 5xx, accepted after a later acknowledged answer said
+                // otherwise: one call shape (stale engine copy of the extension made durable by another PUT)
+                let resurfaced = matches!(&r.target, Target::Db { name, .. } if token.as_ref().is_some_and(|t| self.failed_sets.get(name).is_some_and(|f| f.contains(t))));
                 fail(
-                    "reject:not-401",
+                    if resurfaced { "ack-not-durable:failed-set-resurfaces" } else { "reject:not-401" },
                     "a caller without the admin key or the key bound to the addressed database was not rejected",
                     "401 unauthorized".into(),
                     format!("{} {}", resp.status, decoded(resp).map(|v| v.to_string()).unwrap_or_else(|| vh_common::hex(&resp.body))),
@@ -303,6 +310,11 @@ impl Oracle {
             let e = self.maybe.entry(name.clone()).or_default();
             e.insert(self.bound.get(name).cloned());
             e.insert(if method == "db.remove_api_key" { None } else { key.as_deref().map(|k| w.real(k)) });
+            if method != "db.remove_api_key"
+                && let Some(k) = key
+            {
+                self.failed_sets.entry(name.clone()).or_default().insert(w.real(k));
+            }
             return;
         }
         if resp.status != 200 || resp_enc(resp).is_none() {
